@@ -155,12 +155,33 @@ func trustedResourceURLFormat(format string, args map[string]string) (TrustedRes
 		// segments or URL components.
 		return safehtmlutil.QueryEscapeURL(argVal)
 	})
-	if err == nil && strings.HasPrefix(ret, "//") && !strings.HasPrefix(format, "//") {
+	if err == nil && startsWithTwoSlashes(ret) && !strings.HasPrefix(format, "//") {
 		// An empty argument right after the leading slash of a path-absolute format would turn
 		// the path into a scheme-relative URL whose host is the next path segment.
 		return TrustedResourceURL{}, fmt.Errorf("arguments for format string %q must not change the host of the URL", format)
 	}
 	return TrustedResourceURL{ret}, err
+}
+
+// startsWithTwoSlashes reports whether a URL parser finds two slashes at the start of s,
+// i.e. reads s as a scheme-relative URL. URL parsers remove TAB, LF and CR from their
+// input and treat '\' like '/'.
+func startsWithTwoSlashes(s string) bool {
+	slashes := 0
+	for i := 0; i < len(s); i++ {
+		switch s[i] {
+		case '\t', '\n', '\r':
+			continue
+		case '/', '\\':
+			slashes++
+			if slashes == 2 {
+				return true
+			}
+		default:
+			return false
+		}
+	}
+	return false
 }
 
 // trustedResourceURLFormatMarkerPattern matches markers in TrustedResourceURLFormat
